@@ -207,9 +207,9 @@ func TestVerifC09(t *testing.T) {
 	run.SetRule("case = one concurrent history: real pmm.Init on a generated map (1-3 available regions of 2-130 frames, word-boundary sizes included), then 2-16 callers in parallel (GOMAXPROCS=16) each running a seed-fixed list of AllocFrame / FreeFrame(own frame) / FreeFrame(unmanaged frame) calls; non-trivial = history in which at least one call returned out-of-memory and at least one frame was handed to two different callers over time (reuse after free); distinct = fingerprint of the per-frame owner sequences actually observed")
 	run.Assume("yieldFn = runtime.Gosched; schedules are whatever 16 cores produce; callers never free a frame they do not hold (undefined by the statement)")
 
-	nh := run.N(150, 3000)
+	nh := run.N(150, 8000)
 	if raceBuild {
-		nh = run.N(40, 400)
+		nh = run.N(40, 1200)
 	}
 	run.Cases(nh, func(c *vlib.Case) {
 		r := c.R
